@@ -1,7 +1,7 @@
 //! Instance state for TrueType hinting.
 
 use super::{
-    super::Outlines,
+    super::{Outline, Outlines},
     cow_slice::CowSlice,
     definition::{Definition, DefinitionMap, DefinitionState},
     engine::Engine,
@@ -99,6 +99,15 @@ impl HintInstance {
         } else {
             false
         }
+    }
+
+    /// Returns true if the state retained by this instance matches the
+    /// buffer sizes required by the given outline, that is, if the instance
+    /// was configured for the font that contains the outline.
+    pub fn is_compatible(&self, outline: &Outline) -> bool {
+        self.cvt.len() == outline.cvt_count
+            && self.storage.len() == outline.storage_count
+            && self.twilight_scaled.len() == outline.max_twilight_points
     }
 
     pub fn hint(
